@@ -874,6 +874,98 @@ def r5_range_conservation(ctx, F):
                 ctx.violation("range-multiplicity", fn.loc(), "add_range_checks must increment the multiplicity of each value exactly once (present: +1, absent: insert 1): %s" % [(repr(k), repr(m), ins) for k, m, ins in counts])
 
 
+def r4d_kernel_rom(ctx, F):
+    """kernel ROM rows: the chiplets bus response and the kernel procedure table row (chiplets virtual table) have the forms of
+    docs/src/design/chiplets/kernel_rom.md, each in its own column"""
+    A = auxmodel.AuxModel(F)
+    path = "/repo/docs/src/design/chiplets/kernel_rom.md"
+    txt = open(path).read()
+    forms = []
+    for b in decdocs.blocks(txt):
+        c = decdocs.clean(b.replace("\\Delta addr", "daddr").replace("chip\\_s", "chips"))
+        if c.count("=") == 1:
+            forms.append([x.strip() for x in c.split("=")])
+    vdefs = [rhs for lhs, rhs in forms if lhs == "v"]
+    bus = [rhs for lhs, rhs in forms if lhs.startswith("b'")]
+    vt = [rhs for lhs, rhs in forms if lhs.startswith("vt")]
+    ctx.floor("kernel-rom-doc-formulas", len(vdefs) + len(bus) + len(vt), 4)
+    ch = A.CHP
+    C = lambda pat: (lambda c: c["val"] if isinstance(c, dict) and "val" in c else c)(F.const(pat))
+    label = C(r"chiplets::kernel_rom::KERNEL_PROC_LABEL$")
+    label = label * R_INV % P if isinstance(label, int) and label > 2 ** 32 else label
+    cell = lambda k, prime=False: Poly.var(A.names[ch + k] + ("'" if prime else ""))
+
+    def mk(vtxt):
+        def var(name, idx, primed):
+            if name == "alpha":
+                return Poly.var("alpha%d" % idx)
+            if name == "opXkrom":
+                return Poly.const(label)
+            if name == "addr":
+                return cell(5)
+            if name == "daddr":
+                return cell(5, True) - cell(5)
+            if name == "r":
+                return cell(6 + idx)
+            if name == "s" and idx == 0:
+                return cell(4)
+            if name == "v":
+                return LatexParser(tokenize(vtxt), var, {}).expr()
+            if name in ("b", "vt", "bXchip", "vtXchip"):
+                return Poly.const(1)
+            raise LatexError("unknown symbol %s" % name)
+        return var
+    try:
+        want_bus = LatexParser(tokenize(re.sub(r"^b_\{?chip\}?\s*\\cdot", "", bus[0]).strip()), mk(vdefs[0]), {}).expr()
+        want_vt = LatexParser(tokenize(re.sub(r"^vt_\{?chip\}?\s*\\cdot", "", vt[0]).strip()), mk(vdefs[1]), {}).expr()
+    except (LatexError, IndexError) as e:
+        ctx.violation("doc-unparsed|kernel-rom", path.replace("/repo/", ""), str(e)[:200])
+        return
+    fixed = {(ch, 0): 1, (ch + 1, 0): 1, (ch + 2, 0): 1, (ch + 3, 0): 0}
+    # --- bus: s0 * v + 1 - s0, whatever follows
+    fid = builder_fn(F, "BusColumnBuilder", "get_responses_at")
+    for nxt_name, nxt in (("kernel row follows", {(ch, 1): 1, (ch + 1, 1): 1, (ch + 2, 1): 1, (ch + 3, 1): 0}), ("padding follows", {(ch, 1): 1, (ch + 1, 1): 1, (ch + 2, 1): 1, (ch + 3, 1): 1})):
+        fx = dict(fixed)
+        fx.update(nxt)
+        res = [(g, v) for g, v in A.eval(fid, None, extra_fixed=fx) if not isinstance(v, Exception)]
+        ctx.inst(key="kernel-row|bus|%s" % nxt_name, nontrivial=True)
+        ok = len(res) == 1 and not res[0][0] and res[0][1] == want_bus
+        ctx.oblig(ok)
+        if not ok:
+            ctx.violation("kernel-row|BusColumnBuilder", F.fns[fid].loc(), "on a kernel ROM row (%s) the chiplets bus response is %s; docs/src/design/chiplets/kernel_rom.md gives %s"
+                          % (nxt_name, "; ".join(str(v)[:160] for g, v in res[:2]), str(want_bus)[:200]))
+    # --- kernel procedure table (chiplets virtual table): v' exactly when the address changes in the next kernel row (docs: delta_addr in {0, 1}),
+    #     and for the last kernel row (docs' boundary paragraph: the table ends at the product over ALL unique procedures)
+    vrow = cell(5) * Poly.var("alpha1") + Poly.var("alpha0")
+    for k in range(4):
+        vrow = vrow + cell(6 + k) * Poly.var("alpha%d" % (2 + k))
+    fid = builder_fn(F, "ChipletsVTableColBuilder", "get_responses_at")
+    for nxt_name, nxt in (("kernel row follows", {(ch, 1): 1, (ch + 1, 1): 1, (ch + 2, 1): 1, (ch + 3, 1): 0}), ("padding follows", {(ch, 1): 1, (ch + 1, 1): 1, (ch + 2, 1): 1, (ch + 3, 1): 1})):
+        fx = dict(fixed)
+        fx.update(nxt)
+        res = [(g, v) for g, v in A.eval(fid, None, extra_fixed=fx) if not isinstance(v, Exception)]
+        ctx.inst(key="kernel-row|vtable|%s" % nxt_name, nontrivial=True)
+        bad = []
+        cols = sorted({A.names.get(c, c) for c, r in A.touched if isinstance(c, int) and c < ch and not str(A.names.get(c, "")).startswith("bit")})
+        for g, v in res:
+            conds = [(c, truth(t)) for c, t, l in g]
+            if nxt_name == "padding follows":
+                want = vrow
+            else:
+                chg = None
+                for c, t in conds:
+                    if isinstance(c, Term) and c.op in ("ne", "eq") and {repr(c.args[0]), repr(c.args[1])} == {repr(cell(5)), repr(cell(5, True))}:
+                        chg = t if c.op == "ne" else (not t)
+                want = vrow if chg else one() if chg is not None else None
+            if want is None or not (isinstance(v, Poly) and v == want):
+                bad.append((conds, v, want))
+        ok = bool(res) and not bad and not cols
+        ctx.oblig(ok)
+        if not ok:
+            ctx.violation("kernel-row|ChipletsVTableColBuilder", F.fns[fid].loc(), "on a kernel ROM row (%s) the kernel procedure table factor is %s; expected v' = %s exactly when the kernel ROM address changes (docs/src/design/chiplets/kernel_rom.md) or the kernel ROM section ends%s"
+                          % (nxt_name, "; ".join("%s -> %s" % ([(str(c), t) for c, t in cs], str(v)[:120]) for cs, v, w in bad[:2]) or "undetermined", str(vrow)[:120], ("; the builder reads non-chiplet columns %s" % cols) if cols else ""))
+
+
 def run(ctx, F):
     ctx.trusted += ["rustc MIR via mirfacts", "mirsym; the auxiliary-column model (vlib/auxmodel.py: symbolic main trace, MainTrace accessors interpreted from source)",
                     "operation model (vlib/procmodel.py) for the values handlers write", "docs/src/design/decoder/constraints.md and stack/main.md as oracle for virtual-table rows"]
@@ -885,5 +977,6 @@ def run(ctx, F):
     ctx.run_rule("C12-R3", "memory and bitwise requests equal, symbolically, the product of the chiplet responses of the rows the handler records; labels agree", r3_memory_bitwise, F)
     ctx.run_rule("C12-R5", "RangeChecker::add_range_checks counts every value once and records all values of a row, also when the row already has lookups", r5_range_conservation, F)
     ctx.run_rule("C12-R4a", "virtual-table rows (block stack, block hash, op group, stack overflow) equal the documented rows for every operation; CALL/SYSCALL rows agree between insertion and removal", r4a_decoder_tables, F)
+    ctx.run_rule("C12-R4d", "kernel ROM rows: bus response and kernel procedure table row have the documented forms, each in its own column", r4d_kernel_rom, F)
     ctx.run_rule("C12-R4b", "every block-stack push/pop has an insertion/removal; every executor that runs child blocks inserts them into the block hash table", r4b_who_inserts, F)
     ctx.run_rule("C12-R4c", "MainTrace::is_left_shift / is_right_shift agree with each operation's stack effect", r4c_shift_predicates, F)
